@@ -242,8 +242,10 @@ class SNAXXDMAAccelerator(
                                 cst = arith.ConstantOp.from_int_and_width(0, i32)
                                 result.append(([cst], cst.result))
                     else:
-                        cst = arith.ConstantOp.from_int_and_width(0, i32)
-                        result.append(([cst], cst.result))
+                        # no kernel to configure: one zero per declared CSR of the extension
+                        for i in range(ext.csr_length):
+                            cst = arith.ConstantOp.from_int_and_width(0, i32)
+                            result.append(([cst], cst.result))
 
         return result
 
